@@ -211,6 +211,52 @@ func c09(c *core.Ctx) {
 		}
 		k.Distinct(fmt.Sprintf("lzs|%d|%d", gi, leadingZeros(sh)))
 	})
+	// ONE *big.Int object handed in as exponent AND as peer value (x = y, also >= p), and the same object used again
+	// afterwards: the result is y^x mod p for the value it had, and the object keeps that value for the caller
+	c.Family("same-object-as-exponent-and-peer", c.N(24, 2400), func(k *core.Case) {
+		gi := k.Index % 2
+		g, p, n := grp(gi)
+		var v *big.Int
+		switch k.Index / 2 % 6 {
+		case 0:
+			v = new(big.Int).Add(p, big.NewInt(int64(k.R.Intn(1000))))
+		case 1:
+			v = new(big.Int).Lsh(big.NewInt(1), 2047)
+			v.Add(v, new(big.Int).SetBytes(k.R.Bytes(100)))
+		case 2:
+			v = new(big.Int).Sub(new(big.Int).Lsh(big.NewInt(1), 2048), big.NewInt(int64(1+k.R.Intn(1000))))
+		case 3:
+			v = new(big.Int).SetBytes(k.R.Bytes(n))
+		case 4:
+			v = new(big.Int).Mul(p, big.NewInt(int64(2+k.R.Intn(5))))
+		default:
+			v = new(big.Int).SetBytes(k.R.Bytes(256))
+		}
+		val := new(big.Int).Set(v)
+		want := ref.FixedLen(ref.ModExp(val, val, p), n)
+		k.Eval(1)
+		var got []byte
+		pn := core.Try(func() { got = g.GetSharedKey(v, v) })
+		w := M{"group": libsa.DhNames[gi], "value": val.Text(16)}
+		if pn != nil {
+			k.Violate("panic", "GetSharedKey(v,v): "+pn.Sig(), "panic", panicData(pn, w))
+			return
+		}
+		if !bytes.Equal(got, want) {
+			k.Violate("mismatch", "shared-secret-wrong/same-object-as-exponent-and-peer", fmt.Sprintf("GetSharedKey(v, v) = %x..., reference v^v mod p = %x...", got[:8], want[:8]), w)
+			return
+		}
+		if v.Cmp(val) != 0 {
+			k.Count("argument_value_changed_by_GetSharedKey(not judged)", 1)
+		}
+		// distinct objects with the same value: same result
+		if got2 := g.GetSharedKey(new(big.Int).Set(val), new(big.Int).Set(val)); !bytes.Equal(got2, want) {
+			k.Violate("mismatch", "shared-secret-wrong/equal-values", "", w)
+			return
+		}
+		k.Count("same_object_as_exponent_and_peer", 1)
+		k.Distinct(fmt.Sprintf("sameobj|%d|%d", gi, k.Index/2%6))
+	})
 	// the combined call (draw an exponent, compute public value and shared secret) under a KNOWN random stream, with
 	// peer values that stand in a relation to the locally drawn exponent: the peer drew the same exponent (both ends
 	// seeded alike, or a reflected KE payload), its neighbours, and the usual special values
@@ -468,7 +514,7 @@ func c09(c *core.Ctx) {
 		}
 	})
 	freshFamily(c, "C09", "fresh-process", c.N(2, 40))
-	c.Require("materials_with_related_peer", "fresh_process_cases_ok", "short_read_sources", "low_draw_runs", "lz_shared_1", "lz_shared_100+", "lz_public_100+", "below_minimum_retried", "fault_at_read_0", "lz_shared_searched")
+	c.Require("same_object_as_exponent_and_peer", "materials_with_related_peer", "fresh_process_cases_ok", "short_read_sources", "low_draw_runs", "lz_shared_1", "lz_shared_100+", "lz_public_100+", "below_minimum_retried", "fault_at_read_0", "lz_shared_searched")
 }
 
 // ---------------------------------------------------------------------------
